@@ -615,11 +615,13 @@ func (fc *FuncCtx) execMakeInterface(fr *Frame, st *State, x *ssa.MakeInterface)
 		mk, un := fc.boxFn(t, y.Sort)
 		term = fc.u.define("iface", "Int", "("+mk+" "+y.T+")")
 		fc.u.fact("true", "(= ("+un+" "+term+") "+y.T+")")
+		fc.boxed[term+"|"+shortType(t)] = y.T
 	case PlaceV:
 		if (y.Kind == "obj" || y.Kind == "cell") && len(y.Path) == 0 {
 			mk, un := fc.boxFn(t, "Int")
 			term = fc.u.define("iface", "Int", "("+mk+" "+y.RefTerm+")")
 			fc.u.fact("true", "(= ("+un+" "+term+") "+y.RefTerm+")")
+			fc.boxed[term+"|"+shortType(t)] = y.RefTerm
 		} else {
 			term = fc.u.fresh("iface", "Int")
 		}
@@ -721,6 +723,8 @@ func (fc *FuncCtx) mapLen(st *State, mk mapKeyInfo, ref string) string {
 
 func (fc *FuncCtx) execMakeChan(fr *Frame, st *State, x *ssa.MakeChan) Value {
 	ref := fc.newRef(st, "chan")
+	fc.u.declare("chantype", "(declare-fun chantype (Int) Int)")
+	fc.u.fact(st.pc, "(= (chantype "+ref+") "+fc.typeTag(x.Type().Underlying().(*types.Chan).Elem())+")")
 	sz := fc.idxTerm(fr, st, x.Size)
 	// record capacity (Int sort) and initial state
 	if fc.model == "bv" {
